@@ -447,6 +447,20 @@ theorem C02_throws :
     have : (last.ty.ctype == g) = false := by simpa using h
     simp only [this, Bool.false_eq_true, if_false]
 
+/-- A function named after a plain record / union / boxed / interface / enum is written twice (namespace function
+    with `moved-to` + static function of the type).  `throws` and the written parameters depend on the declaration
+    alone, so EVERY emitted copy of a declaration ending in `GError**` has the error parameter removed and is marked
+    as throwing; without a trailing `GError**` both copies keep the whole list. -/
+theorem C02_throws_every_copy :
+    (∀ (init : List Param) (last : Param) (b : Bool), last.ty.ctype = "GError**".toList →
+      pairStaticThrows (init ++ [last]) b = ((init, true), (init, true))) ∧
+    (∀ (ps : List Param) (b : Bool), (pairStaticThrows ps b).1 = (pairStaticThrows ps b).2) := by
+  refine ⟨?_, ?_⟩
+  · intro init last b h
+    simp only [pairStaticThrows, List.map_id_fun, id_eq, C02_throws.1 init last b h]
+  · intro ps b
+    simp only [pairStaticThrows, List.map_id_fun, id_eq]
+
 /-! ### non-vacuity: concrete instances of hypotheses and conclusions -/
 
 section Examples
@@ -516,6 +530,8 @@ example : ∀ l ∈ [lnkG "Foo.Str2" false, lnkG "Foo.Str" false], l.fundamental
 example : (markUserData (mkP "user_data" gp)).closure = some "user_data".toList := by decide +kernel
 example : commonNullable gp none false = true := by decide +kernel
 
+example : pairStaticThrows [mkP "path" intTy, mkP "error" errTy] false =
+    (([mkP "path" intTy], true), ([mkP "path" intTy], true)) := by decide +kernel
 end Examples
 
 end GIVerif.Defaults
